@@ -140,6 +140,14 @@ CHECKS = {
    note="Tokenisation by the regular expression (VALUE_PATTERN.findall) is an ASSUMED contract, backed only by a bounded differential against an independent "
         "generator of Marlin/Grbl reports (3 000 quick / 100 000 thorough lines). float()/split()/isalnum()/strip()/lower() are uninterpreted functions; report "
         "keys are upper-case (A-upper)."),
+ "C19": dict(category="proof",
+   text="gscrib's own part of the heightmaps is proved: RasterHeightMap.get_depth_at returns exactly 0.0 outside [0,width)x[0,height) and scale x interpolator(row = y, "
+        "column = x) inside (orientation as a call-argument obligation), SparseHeightMap.get_depth_at is scale x interpolator(x, y); SparseHeightMap wires "
+        "LinearNDInterpolator(zip(col 0, col 1), col 2, fill_value=0.0); set_scale/set_tolerance guards with frames; the tolerance filter loop (both copies) under a loop "
+        "contract: output begins with the first and ends with the last sample, and a sample is dropped exactly when its height differs from the previously KEPT one by "
+        "less than the tolerance.",
+   note="The interpolants themselves (scipy RectBivariateSpline / LinearNDInterpolator exact at samples, inside [min, max] in the hull, 0 outside; skimage.draw.line and "
+        "np.linspace end points) are ASSUMED contracts, exercised only by a bounded stand-in on random images / point sets with the real libraries. A-real."),
  "C20": dict(category="proof",
    text="Loop contract for the hook loop of _prepare_move with an arbitrary number >= 1 of arbitrary hooks: each hook call receives "
         "(resolve(position), true absolute target, params, state) in either distance mode (move and move_absolute); the parameters returned "
@@ -162,7 +170,7 @@ NOT_APPLICABLE = {
  "C16": "checks for this property are still being built in this round (will be claimed once its units discharge); not a statement about applicability",
  
  
- "C19": "checks for this property are still being built in this round (will be claimed once its units discharge); not a statement about applicability",
+ 
  
  
 }
